@@ -5,6 +5,7 @@
    (ref_wf) the observed behaviour must be a Lua error or "no match"; a Go panic never passes. *)
 From GL Require Import Common.Bytes Pm.Class Pm.PmTypes Pm.RefMatch
      Pm.GoParse Pm.GoCompile Pm.GoVM Pm.Find Pm.Gsub.
+From GL Require Str.StrModel.
 
 Inductive obsv (A : Type) := OOk (a : A) | OErr | OPanic.
 Arguments OOk {A} a.
@@ -16,6 +17,9 @@ Definition prog_row := (Z * Z * Z * list Z)%type.
 Inductive case :=
 | CFind (s p : bytes) (oinit : option Z) (o : obsv (list lval))
 | CMatch (s p : bytes) (oinit : option Z) (o : obsv (list lval))
+  (* string.find(s, p, init, true, nil...) : plain search, with nextra further arguments after the
+     flag (the flag must be honoured whatever the argument count) *)
+| CFindPlain (s p : bytes) (oinit : option Z) (nextra : Z) (o : obsv (list lval))
 | CGmatch (s p : bytes) (o : obsv (list (list lval)))
 | CGsub (s p : bytes) (r : repl) (olimit : option Z) (o : obsv gsub_out)
   (* pm.Find through its exported API: per match, (Capture(i), IsPosCapture(i)) for all i *)
@@ -75,6 +79,9 @@ Definition check_impl (c : case) : bool :=
   match c with
   | CFind s p oi o => agree vals_eqb (strFind s p oi) o
   | CMatch s p oi o => agree vals_eqb (strMatch s p oi) o
+  | CFindPlain s p oi _ o =>
+      agree vals_eqb (Ok (match Str.StrModel.strFindPlain s p oi with
+                          | Some (a, b) => [VNum a; VNum b] | None => [VNil] end)) o
   | CGmatch s p o => agree tuples_eqb (strGmatch s p) o
   | CGsub s p r ol o => agree gsub_eqb (strGsub s p r ol) o
   | CPmFind p s off lim o => agree md_eqb (of_fres (goFind p s off lim) (fun ms => Ok (map md_view ms))) o
@@ -194,6 +201,9 @@ Definition check_spec (c : case) : bool :=
       spec_ok vals_eqb (ref_wf p true) (ref_find s p (match oi with Some i => i | None => 1 end)) [VNil] o
   | CMatch s p oi o =>
       spec_ok vals_eqb (ref_wf p true) (ref_smatch s p (match oi with Some i => i | None => 1 end)) [VNil] o
+  | CFindPlain s p oi _ o =>
+      agree vals_eqb (Ok (match Str.StrModel.find_plain_spec s p oi with
+                          | Some (a, b) => [VNum a; VNum b] | None => [VNil] end)) o
   | CGmatch s p o => spec_ok tuples_eqb (ref_wf p false) (ref_gmatch s p) [] o
   | CGsub s p r ol o => spec_ok gsub_eqb (ref_wf p true) (ref_gsub s p r ol) (s, 0, []) o
   | CPmFind p s off lim o => spec_ok md_eqb (ref_wf p true) (ref_pmfind p s off lim) [] o
